@@ -509,7 +509,7 @@ func genC19(t *rapid.T, tier Tier) C19Case {
 				n.Elems = append(n.Elems, genStack(depth+1))
 			case r < nilw+13 && depth < 2:
 				e := genStack(depth + 1)
-				cn := Node{T: "cond", KW: "k", Op: OpEq(), Expr: &e, Wrap: rapid.SampledFrom([]int{0, 0, WrapAlias}).Draw(t, "cwrap")}
+				cn := Node{T: "cond", KW: "k", Op: OpEq(), Expr: &e, Wrap: rapid.SampledFrom([]int{0, 0, WrapAlias, WrapPtr, WrapPtrNS, WrapPtrLoud}).Draw(t, "cwrap")}
 				if rapid.IntRange(0, 2).Draw(t, "cond-err") == 0 {
 					cn.Amb = AmbErr
 				}
